@@ -133,7 +133,7 @@ def handleParse (dag node nS mode : String) : String :=
           | .err => "err"
           | .none => "ok none"
           | .cell => "ok cell"
-          | .empty b r => "ok empty " ++ showVal (b, r)
+          | .empty y => "ok " ++ showAug [] [y]
           | .dict kv ex => "ok " ++ showAug kv ex
       | _ => "bad-op"
   | _, _ => "bad-op"
